@@ -246,6 +246,28 @@ def gen_resgraph(rng, ff, nres=None, shape=None):
             'keys': list(range(nres)), 'order': list(range(nres)), 'edge_order': list(range(len(edges))), 'flip': [False] * len(edges)}
 
 
+RATTR = ('chiral', ['R', 'S'])
+
+
+def attr_graph(rng, g, p=0.7):
+    """residues carrying a further attribute, as a .json sequence or a gen_seq -label gives them"""
+    return dict(g, rattrs={str(i): {RATTR[0]: rng.choice(RATTR[1])} for i in range(g['nres']) if rng.random() < p})
+
+
+def attr_link(rng, link):
+    """a copy of the link one of whose atoms also states a residue attribute"""
+    used = sorted({tuple(a) for rows in link['inters'].values() for r in rows for a in r['atoms']})
+    if not used or not link['resnames']:
+        return None
+    a = rng.choice(used)
+    if any(tuple(pn) == a for pn, _ in link['atoms_attr']):
+        return None
+    # own parameters: where the copy applies it overwrites what the plain link wrote
+    inters = {sec: [dict(r, params=[r['params'][0]] + [f'{rng.uniform(0.1, 9):.3f}' for _ in r['params'][1:]] if r['params'] else [])
+                    for r in rows] for sec, rows in link['inters'].items()}
+    return dict(link, inters=inters, atoms_attr=link['atoms_attr'] + [[list(a), {RATTR[0]: rng.choice(RATTR[1])}]])
+
+
 def label_graph(rng, g, p=0.5):
     """residue-graph edges with a 'linktype' label (as a .json sequence or a circular .ig file gives them)"""
     return dict(g, elabels={str(k): rng.choice(LINKTYPES) for k in range(len(g['edges'])) if rng.random() < p})
@@ -267,7 +289,7 @@ def build_meta(g, force_field):
     from polyply import MetaMolecule
     graph = nx.Graph()
     for i in g['order']:
-        graph.add_node(g['keys'][i], resname=g['resnames'][i], resid=g['r0'] + i)
+        graph.add_node(g['keys'][i], resname=g['resnames'][i], resid=g['r0'] + i, **g.get('rattrs', {}).get(str(i), {}))
     for k in g['edge_order']:
         a, b = g['edges'][k]
         if g['flip'][k]:
